@@ -50,13 +50,19 @@ class Wire:
         self.shape = []           # deviations from `strict`
 
     def recv(self, n: int) -> bytes:
+        if n <= 0:                     # a socket returns b"" at once; no step of any model, never a chunk consumed
+            self.shape.append(f"_recv({n}) called")
+            return b""
         if self.strict is not None:
             i = len(self.log)
             if i < len(self.strict):
                 asked, k = self.strict[i]
                 if asked != n:
                     self.shape.append(f"_recv call {i}: asked {n}, model {asked}")
-                k = min(k, n) if n > 0 else 0
+                k = min(k, n)
+                if k <= 0 and self.pos < len(self.data):      # never a premature end of stream
+                    self.shape.append(f"_recv call {i}: model is at end of stream, {len(self.data) - self.pos} bytes remain")
+                    k = min(n, len(self.data) - self.pos)
             else:
                 self.shape.append(f"_recv call {i}: not in the model's behaviour (asked {n})")
                 k = min(n, len(self.data) - self.pos)
